@@ -57,6 +57,12 @@ def gen_reencoding(rng, kind, X, quant, qual):
         cols = list(X.columns); rng.shuffle(cols)
         q2, k2 = list(quant), list(qual); rng.shuffle(q2); rng.shuffle(k2)
         return {"columns": cols, "quant": q2, "qual": k2}
+    if kind == "columns_only":
+        # the columns of the frame alone (the selector is built with the very same lists): the selection must be identical
+        cols = list(X.columns); rng.shuffle(cols)
+        return {"columns": cols}
+    if kind == "reuse":
+        return {}
     return None
 
 
@@ -77,7 +83,23 @@ def apply_reencoding(kind, par, X, y, quant, qual):
         X2, y2 = X.iloc[par["perm"]], y.iloc[par["perm"]]
     elif kind == "columns":
         X2, q2, k2 = X[par["columns"]], list(par["quant"]), list(par["qual"])
+    elif kind == "columns_only":
+        X2 = X[par["columns"]]
     return X2, y2, q2, k2
+
+
+def second_target(case, X, y):
+    """another target for the same frame (the target read backwards), with the copies of the target rebuilt from it"""
+    y2 = pd.Series(list(reversed(y.tolist())), index=X.index, name="target")
+    X2 = X.copy()
+    yv = np.asarray(y2.tolist(), dtype=float)
+    if case["copy"] == "copy":
+        X2["q_copy"] = yv
+    elif case["copy"] == "monotone":
+        X2["q_copy"] = 2.0 ** (yv / 4) if case["task"] == "regression" else yv * 8.0 + 3.0
+    elif case["copy"] == "qual_copy" and "k_copy" in X2.columns:
+        X2["k_copy"] = ["cls" + str(v) for v in y2.tolist()]
+    return X2, y2
 
 
 def eval_case(case, cfg, reencodings, stats):
@@ -126,13 +148,36 @@ def eval_case(case, cfg, reencodings, stats):
                             and any(X[f].nunique() > 2 and f in base for f in rivals)),
              copy_measure=keys.get("k_copy"), outranked_by={f: keys[f] for f in rivals})
     for kind, par in reencodings:
-        X2, y2, q2, k2 = apply_reencoding(kind, par, X, y, quant, qual)
         stats["pairs"] += 1
         stats["kinds"][kind] = stats["kinds"].get(kind, 0) + 1
+        if kind == "reuse":
+            # the same selector object asked a second time, about another target: it must answer as a new selector does
+            # (what it returns depends on the data it is given, not on what it was given before)
+            X2, y2 = second_target(case, X, y)
+            try:
+                with warnings.catch_warnings():
+                    warnings.simplefilter("ignore")
+                    import io, contextlib
+                    with contextlib.redirect_stdout(io.StringIO()):
+                        again = sel.select(X2, y2)
+                fresh, _ = run_select(task, cfg, X2, y2, quant, qual)
+            except Exception as e:
+                fail(f"select raised {type(e).__name__} on a second target", error=str(e)[:200], transformation=kind, parameters=par, quant_only=False)
+                continue
+            if again != fresh:
+                fail("a selector asked a second time (another target, the same frame) does not return what a new selector returns",
+                     second_call=again, new_selector=fresh, transformation=kind, parameters=par, quant_only=False)
+            continue
+        X2, y2, q2, k2 = apply_reencoding(kind, par, X, y, quant, qual)
         try:
             res2, _ = run_select(task, cfg, X2, y2, q2, k2)
         except Exception as e:
             fail(f"select raised {type(e).__name__} after the re-encoding '{kind}'", error=str(e)[:200], transformation=kind, parameters=par)
+            continue
+        if kind == "columns_only":
+            if base != res2:
+                fail("the returned features (or their order) change when only the columns of the frame are permuted", original=base, re_encoded=res2,
+                     transformation=kind, parameters=par, quant_only=False)
             continue
         if not same_up_to_ties(base, res2, keys):
             fail(f"the returned features (or their order) change under '{kind}'", original=base, re_encoded=res2, transformation=kind, parameters=par,
@@ -159,7 +204,7 @@ def check_case(rng, stats):
     case = {"task": task, "cfg": {k: v for k, v in cfg.items() if k != "kw"}, "copy": copy_kind,
             "X": {c: [None if (isinstance(v, float) and math.isnan(v)) else v for v in X[c].tolist()] for c in X.columns}, "y": y.tolist()}
     res = []
-    for kind in rng.sample(["negate", "rescale", "rename", "rows", "columns"], 3):
+    for kind in rng.sample(["negate", "rescale", "rename", "rows", "columns", "columns_only", "reuse"], 4):
         par = gen_reencoding(rng, kind, X, quant, qual)
         if par is not None:
             res.append((kind, par))
